@@ -24,11 +24,11 @@ KA = [W.PASS, W.FAIL, W.ERROR, W.XPASS, W.SKIP_BODY, W.XFAIL, W.SUBFAIL2, W.ERR_
 KB = [W.PASS, W.FAIL, W.ERROR, W.SKIP_BODY]
 
 
-def counts(mode, ka, kb, sk, imp, su, td, rep2, verbose, strict):
+def counts(mode, ka, kb, sk, imp, su, td, rep2, verbose, strict, nl):
     global LAST
     mode = pick(FR.MODES, mode)
     ka, kb = pick(KA, ka), pick(KB, kb)
-    sk, imp, rep2, strict = cb(sk), cb(imp), cb(rep2), cb(strict)
+    sk, imp, rep2, strict, nl = cb(sk), cb(imp), cb(rep2), cb(strict), cb(nl)
     su, td = ci(su, 0, 2), ci(td, 0, 2)
     verbose = ci(verbose, 0, 2)
     with untraced():
@@ -41,12 +41,13 @@ def counts(mode, ka, kb, sk, imp, su, td, rep2, verbose, strict):
             tdd['A'] = 2
         sud = {1: {'A': 1}, 2: {'B': 1}}.get(su, {})
         kinds = {'a0': W.SKIP_BODY if sk else W.PASS, 'a1': ka, 'b0': kb, 'b1': W.PASS}
-        world = FR.World(kinds, su=sud, td=tdd, imp=imp, order=['b0', 'a0', 'b1', 'a1'])
+        world = FR.World(kinds, su=sud, td=tdd, imp=imp, order=['b0', 'a0', 'b1', 'a1'],
+                         strnames={'a1': 'a1 first line\nsecond line', 'b0': 'b0\n(w.T_b0)'} if nl else None)
     argv = (['--repeat', '2'] if rep2 else []) + (['-' + 'v' * verbose] if verbose else [])
     res = FR.run(world, mode, argv=argv)
     with untraced():
         why, summ = oracle(res, world, kinds, mode, imp, su, td, rep2, verbose, strict)
-    LAST = (mode, W.KIND_NAMES[ka], W.KIND_NAMES[kb], sk, imp, su, td, rep2, verbose, why, summ, strict)
+    LAST = (mode, W.KIND_NAMES[ka], W.KIND_NAMES[kb], sk, imp, su, td, rep2, verbose, why, summ, strict, nl)
     return why is None
 
 
@@ -56,7 +57,7 @@ def oracle(res, world, kinds, mode, imp, su, td, rep2, verbose, strict):
     if res.thread_exc:
         return 'exception in a runner thread: %r' % (res.thread_exc,), None
     rep = 2 if rep2 else 1
-    parsed = FR.parse_text(res.text)
+    parsed = FR.parse_text(res.text, cont=('second line', '(w.T_b0)'))
     # ---- what happened, from the world's own event trace
     started = {}
     for e in res.trace:
@@ -164,15 +165,15 @@ def linear(c0, c1, c2, k1):
     return ok
 
 
-_P = [('mode', 'int'), ('ka', 'int'), ('kb', 'int'), ('sk', 'bool'), ('imp', 'bool'), ('su', 'int'), ('td', 'int'), ('rep2', 'bool'), ('verbose', 'int'), ('strict', 'bool')]
+_P = [('mode', 'int'), ('ka', 'int'), ('kb', 'int'), ('sk', 'bool'), ('imp', 'bool'), ('su', 'int'), ('td', 'int'), ('rep2', 'bool'), ('verbose', 'int'), ('strict', 'bool'), ('nl', 'bool')]
 _C = ', '.join(n for n, _ in _P)
 _B = '(rep2 or strict) and 0 <= mode < 5 and 0 <= ka < %d and 0 <= kb < %d and 0 <= su <= 2 and 0 <= td <= 2 and 0 <= verbose <= 2' % (len(KA), len(KB))
-_Q = _B + ' and verbose == 1 and kb <= 1 and (imp + (su != 0) + (td != 0) <= 1) and (not rep2 or (not imp and su == 0 and td == 0))'
+_Q = _B + ' and (not nl or (not rep2 and not sk and not imp and su == 0 and td == 0)) and verbose == 1 and kb <= 1 and (imp + (su != 0) + (td != 0) <= 1) and (not rep2 or (not imp and su == 0 and td == 0))'
 _T = _B
 
 
 def _v(**kw):
-    v = dict(mode=0, ka=0, kb=0, sk=False, imp=False, su=0, td=0, rep2=False, verbose=1, strict=True)
+    v = dict(mode=0, ka=0, kb=0, sk=False, imp=False, su=0, td=0, rep2=False, verbose=1, strict=True, nl=False)
     v.update(kw)
     return v
 
@@ -193,12 +194,12 @@ SPEC = {
         {'name': 'counts', 'fn': 'counts', 'params': _P, 'call': _C,
          'bounds': {'quick': _Q, 'thorough': _T},
          # (slices are chosen so that none lies completely inside a known-finding region)
-         'slices': {'quick': ['mode == %d and ka %% 3 == %d' % (m, k) for m in range(5) for k in range(3)],
+         'slices': {'quick': ['mode == %d and ka == %d' % (m, k) for m in range(5) for k in range(len(KA)) if not (m in (1, 4) and k in (4, 8, 10))],
                     'thorough': ['mode == %d and ka %% 4 == %d and verbose == %d and kb %% 2 == %d' % (m, k, vb, b) for m in range(5) for k in range(4) for vb in range(3) for b in range(2)]},
          'reach': 'counts_reach', 'reach_bounds': {'quick': _B + ' and ka == 1 and su == 0 and td == 0 and not imp and verbose == 1',
                                                    'thorough': _B + ' and ka == 1 and su == 0 and td == 0 and not imp and verbose == 1'},
          'timeout': {'quick': 400, 'thorough': 1700},
-         'fidelity': [_v(), _v(mode=1, ka=6, sk=True), _v(mode=2, ka=3, imp=True, verbose=2), _v(ka=7, rep2=True, kb=1, strict=False), _v(mode=4, su=1, td=2, verbose=0)]},
+         'fidelity': [_v(), _v(mode=1, ka=6, sk=True), _v(mode=2, ka=3, imp=True, verbose=2), _v(ka=7, rep2=True, kb=1, strict=False), _v(mode=4, su=1, td=2, verbose=0), _v(mode=1, ka=1, kb=2, nl=True)]},
         {'name': 'linear', 'fn': 'linear', 'params': [('c0', 'int'), ('c1', 'int'), ('c2', 'int'), ('k1', 'int')], 'call': 'c0, c1, c2, k1',
          'bounds': {'quick': 'c0 >= 0 and c1 >= 0 and c2 >= 0 and 0 <= k1 < 4', 'thorough': 'c0 >= 0 and c1 >= 0 and c2 >= 0 and 0 <= k1 < 4'},
          'timeout': {'quick': 120, 'thorough': 300},
